@@ -248,8 +248,6 @@ def gen_op(cname, shape, bad=False):
     w = ["get"] * 5 + ["reshape"] * 3 + ["flatten"] * 3 + ["transpose"] * 4 + ["squeeze"] * 2 + \
         ["stack"] * 2 + ["unit", "neg", "inv"]
     k = R.choice(w)
-    if k == "squeeze" and cname == "Miller" and R.random() < 0.6:
-        k = "flatten"
     if k == "inv" and cname not in QUAT and R.random() < 0.8:
         k = "neg"
     if k == "get":
